@@ -59,9 +59,12 @@ CLAIMS = {
         "the theorems on every case and exports the spec's value (incl. the verdict for every truncation and +-1 length-byte change); every case is replayed "
         "through KSI_TLV (parse, nested lists, serialize, clone, writeBytes into buffers of needed size -2..+5), KSI_TlvElement and the KSI_FTLV memory, file and "
         "socket readers; StreamRead(tag, len, buf) states when a stream reader with a buf-byte buffer delivers the element at the head of the stream (iff header + "
-        "payload fit; exactly its bytes consumed; at most the header consumed on refusal) and is replayed with buffers below, at and above each element size.",
-   note="A refused element is asked a second time (must be refused again) and serialized (must give its input bytes). Bounds: tags {1,31,32,8191} x flags x payloads, nodes with <=2 children, depth 2 in thorough; header cases tags x lengths {0..65537}; two-child sizes around 65535; 256 first bytes x all second bytes in TLC (5 sampled in replay). Defect F-C09-1 fixed.",
-   technique="TLC-checked TLA+ codec specification; exhaustive TLC-generated case tables replayed into the three libksi codecs"),
+        "payload fit; exactly its bytes consumed; at most the header consumed on refusal) and is replayed with buffers below, at and above each element size. "
+        "TlvEdit.tla is the element codec's editing interface as a state machine (Append / SetEl / Remove at paths into the tree): the serialization of the root after "
+        "every step is a function of the current tree only; every behaviour of a small alphabet up to 3 edits and TLC-simulated behaviours of a wide alphabet "
+        "(lengths around 0xff/0x100) are replayed through KSI_TlvElement_appendElement / setElement / setOctetString / removeElement, root compared after each edit.",
+   note="A refused element is asked a second time (must be refused again) and serialized (must give its input bytes). Bounds: tags {1,31,32,8191} x flags x payloads, nodes with <=2 children, depth 2 in thorough; header cases tags x lengths {0..65537}; two-child sizes around 65535; 256 first bytes x all second bytes in TLC (5 sampled in replay); edit behaviours: paths to depth 2, 3 edits exhaustive, 5 (thorough 6) edits simulated. Defects F-C09-1, F-C09-2 fixed.",
+   technique="TLC-checked TLA+ codec specification; exhaustive TLC-generated case tables and TLC-generated (exhaustive + simulated) edit behaviours replayed into the three libksi codecs"),
  "C01": dict(level="model_checking", design_ref="DESIGN.md 4/C01",
    text="Signature.tla states internal consistency twice: declaratively (the KSI conditions, each with its documented code, Allowed verdict sets) and "
         "operationally (the internal rule tree of policy.c as data, evaluated with the documented AND/OR semantics, each rule's outcome a function of the "
